@@ -357,6 +357,7 @@ def execute_c10(scenario, params, streams=None):
                     return gen.gen_session(hist, m, params, si)
 
             pre_align = _alignment_state(world)
+            pre_addr = {bi.uuid: bi.address for bi in world.module.byte_intervals}
             sess = driver.run_session(world, model, sdesc, "C10", si, gen_cb=gen_cb, sink=scenario["sessions"], check_shape=shape)
             stats["sessions"] += 1
             stats["ops"] += len(sess.desc["ops"])
@@ -374,7 +375,10 @@ def execute_c10(scenario, params, streams=None):
                     continue
                 was = pre_align.get(bu)
                 if was is None or was[1]:
-                    sig = {"new_block": was is None, "zero_sized": size == 0, "layout_reordered": bool(obs.reordered)}
+                    # (did the rewrite move byte intervals that existed before?
+                    # padding is computed for the addresses before that)
+                    relaid = any(bi.uuid in pre_addr and pre_addr[bi.uuid] != bi.address for bi in world.module.byte_intervals)
+                    sig = {"new_block": was is None, "zero_sized": size == 0, "layout_reordered": bool(obs.reordered), "relaid": relaid}
                     if was is None:
                         sig["paddable"] = _paddable_new_block(world, model, mt, sess, bu)
                     raise core.Violation("C10", "alignment-lost", {"alignment": a, "new_block": was is None, "zero_sized": size == 0, "session": si}, sig)
@@ -875,7 +879,7 @@ def execute_generic(prop, scenario, params, streams=None):
                 if got not in exp:
                     raise core.Violation("C13", "wrong-error", {"fault": sorted(kinds), "got": got, "message": str(sess.error)[:200]}, {"kind": sorted(kinds)[0] if kinds else None, "got": got})
                 break
-            if prop == "C13" and sess.error is None and sess.desc.get("faults") and any(k in ("undef", "redef") for k in (sess.desc["faults"].get("callback") or {}).values()) and sum(sess.fired.values()):
+            if prop == "C13" and sess.error is None and sess.desc.get("faults") and any(k in ("undef", "redef") for k in (sess.desc["faults"].get("callback") or {}).values()) and (sess.fired.get("callback-undef", 0) + sess.fired.get("callback-redef", 0)):
                 raise core.Violation("C13", "wrong-error", {"fault": sess.desc["faults"], "got": "no error"}, {"kind": "missing", "got": "none"})
             if sess.error is not None and type(sess.error).__name__ == "PaddingError":
                 # documented failure: the ABI's nop does not fit into the
